@@ -38,6 +38,10 @@ func main() {
 		fmt.Println("usage: vh <property> <tier> [--proof file] [--seed n] [--repo dir] [--replay file]")
 		os.Exit(2)
 	}
+	if os.Args[1] == "defscheme-child" {
+		defSchemeChild(os.Args[2])
+		return
+	}
 	if os.Args[1] == "conc-child" {
 		seed, _ := strconv.ParseUint(os.Args[2], 10, 64)
 		rounds, _ := strconv.Atoi(os.Args[3])
